@@ -70,6 +70,16 @@ func (RxEngine) Generate(prop string, r *kit.Rand, tier string) *kit.Scenario[Rx
 	if r.Chance(0.5) {
 		n = r.Range(3, 30)
 	}
+	if r.Chance(0.06) {
+		// a stream shaped to fill the 32-packet receive buffer exactly, with a maximal (or oversize) block straddling its end
+		c.Stream, c.Reads = true, []int{kit.Pick(r, []int{1 << 20, 281600, 140800, 8800})}
+		for i := 0; i < 31; i++ {
+			sc.Ops = append(sc.Ops, RxOp{Base: "big", Seed: 8800})
+		}
+		sc.Ops = append(sc.Ops, RxOp{Base: "big", Seed: r.Range(8796, 8812)})
+		sc.Ops = append(sc.Ops, RxOp{Base: "interest", Seed: r.Intn(1 << 16)}, RxOp{Base: "data", Seed: r.Intn(1 << 16)})
+		return sc
+	}
 	bases := []string{"interest", "data", "lp-interest", "lp-data", "frag", "nack", "idle", "random"}
 	for i := 0; i < n; i++ {
 		o := RxOp{Base: bases[r.Weighted([]int{5, 5, 5, 5, 6, 1, 1, 2})], Seed: r.Intn(1 << 16)}
@@ -330,6 +340,16 @@ func (w *rxWorld) buildFrame(o *RxOp) []byte {
 		f = r.Bytes(1 + o.Seed%400)
 		if o.Seed&1 == 1 {
 			f[0] = kit.Pick(r, []byte{0x05, 0x06, 0x64})
+		}
+	case "big":
+		// an opaque TLV block of o.Seed bytes in total (3-byte length form); not a valid packet
+		l := o.Seed - 4
+		if l < 253 {
+			l = 253
+		}
+		f = append([]byte{0x06, 0xfd, byte(l >> 8), byte(l)}, make([]byte, l)...)
+		for i := 4; i < len(f); i++ {
+			f[i] = byte(i * 7)
 		}
 	case "frag":
 		// a message of several fragments produced by the real sender; op selects one fragment
@@ -658,6 +678,10 @@ func (e RxEngine) Run(t *testing.T, ctx *kit.Ctx, sc *kit.Scenario[RxConfig, RxO
 					res.Steps++
 				}
 			}, nil)
+			if rd.spun && res.Violation == nil {
+				res.Violation = &kit.Violation{Class: "C04/spin", Key: "fw/face.readTlvStream", Step: step,
+					Detail: fmt.Sprintf("readTlvStream made %d Read calls for a %d-byte stream without finishing: it keeps reading with no buffer space left", rd.calls, len(stream))}
+			}
 			if err != nil && !errors.Is(err, io.EOF) {
 				ctx.Probe("stream-framing-error")
 			}
